@@ -3,9 +3,12 @@
 
   Model: `Lumina/Model/Row.lean` (`verify`, `fromRaw`, `toRaw`; the Reed–Solomon codec is a parameter of `fromRaw`),
   over `Lumina/Model/Nmt.lean` and `Lumina/Model/Eds.lean`.  Spec: `Lumina/Spec/C05.lean`.
-  Soundness under the idealised hash (`HashOK`) and in "sound or explicit collision" form; the round trips take the
-  codec property they need (encode extends the left half to the row / reconstruct recovers the row from the right
-  half — validated against the real leopard codec by the correspondence, not proved) as a hypothesis.
+  Soundness under collision-freeness of the hash RELATIVE TO the byte strings actually hashed (`HashOKOn H (· ∈
+  hashedC05 H e r)`: the square's row/column trees and the verifier's rebuilt row tree), and as a reduction: an accepted
+  wrong row yields an explicit collision among those inputs.  The round trips are stated for a systematic encoder
+  `enc` (`encodeCodec enc`) resp. a reconstructor `rec` with the MDS property `RecoversFromRight enc rec k`, for rows
+  that are codewords (`RowCodeword`) — properties of the codec, not the conclusion; that the real leopard codec has
+  them is validated by the correspondence, not proved.
 -/
 import Lumina.Proofs.Row
 import Lumina.Gen.C05
@@ -21,11 +24,18 @@ theorem consts_eq :
     Lumina.Gen.C05.SHARE_SIZE = 512 ∧ Lumina.Gen.C05.SHARE_SIZE = Lumina.Model.Eds.SHARE_SIZE := by
   decide
 
-/-- **Row soundness against a committed root.** -/
-theorem row_sound_root {H : HashFn} (hk : HashOK H) {committed : List Share}
-    (hc : ∀ sh ∈ committed, NS_SIZE ≤ sh.data.length) {root : NsHash}
+/-- the byte strings hashed by the two computations `row_sound_eds` compares: all row and column trees of the
+    square (and the empty string, preimage of `EMPTY_ROOT`), and the row tree the verifier rebuilds from the received
+    shares -/
+def hashedC05 (H : HashFn) (e : Eds) (r : Row) : List Bytes := edsInputs H e ++ rowInputs H r.shares
+
+/-- **Row soundness against a committed root**, the hash collision-free on `S` ⊇ inputs of the committed tree, inputs
+    of the verifier's tree, and `[]`. -/
+theorem row_sound_root {H : HashFn} {S : Bytes → Prop} (hk : HashOKOn H S) (hE : S []) {committed : List Share}
+    (hc : ∀ sh ∈ committed, NS_SIZE ≤ sh.data.length) (hSc : ∀ y ∈ rowInputs H committed, S y) {root : NsHash}
     (hroot : computeRoot H true (committed.map (Share.leafHash H)) = .ok root) {dah : Dah} {i : Nat}
-    (hd : dah.rowRoot? i = some root) (r : Row) (hr : ∀ sh ∈ r.shares, NS_SIZE ≤ sh.data.length) :
+    (hd : dah.rowRoot? i = some root) (r : Row) (hr : ∀ sh ∈ r.shares, NS_SIZE ≤ sh.data.length)
+    (hSr : ∀ y ∈ rowInputs H r.shares, S y) :
     specVerify (some (committed.map Share.data)) (r.shares.map Share.data) (accepted (verify H r i dah)) = true := by
   cases hv : verify H r i dah with
   | error er => simp [accepted, specVerify]
@@ -46,13 +56,27 @@ theorem row_sound_root {H : HashFn} (hk : HashOK H) {committed : List Share}
         · cases hv
         · rename_i hne
           have hh : t.hash = root.hash := by simpa using hne
-          have := computeRoot_hash_inj hk (allLeaf_of_shares hr) (allLeaf_of_shares hc) hcr hroot hh
-          have := leafHash_map_inj hk hr hc this
+          have hLr : ∀ sh ∈ r.shares, S (leafInput sh.ns sh.data) := fun sh hm =>
+            hSr _ (List.mem_append_left _ (List.mem_map.mpr ⟨sh, hm, rfl⟩))
+          have hLc : ∀ sh ∈ committed, S (leafInput sh.ns sh.data) := fun sh hm =>
+            hSc _ (List.mem_append_left _ (List.mem_map.mpr ⟨sh, hm, rfl⟩))
+          have hTr : ∀ y ∈ rootInputs H true ((r.shares.map (Share.leafHash H)).length + 1)
+              (r.shares.map (Share.leafHash H)), S y := fun y hy =>
+            hSr y (List.mem_append_right _ (by simpa using hy))
+          have hTc : ∀ y ∈ rootInputs H true ((committed.map (Share.leafHash H)).length + 1)
+              (committed.map (Share.leafHash H)), S y := fun y hy =>
+            hSc y (List.mem_append_right _ (by simpa using hy))
+          have := computeRoot_hash_inj_on hk hE (allLeafOn_of_shares hr hLr) (allLeafOn_of_shares hc hLc)
+            hTr hTc hcr hroot hh
+          have := leafHash_map_inj_on hk hr hc hLr hLc this
           simp [accepted, specVerify, this]
 
-/-- **Row soundness against the DAH of a square**: accepted ⇒ the shares are exactly row `i` of the square -/
-theorem row_sound_eds {H : HashFn} (hk : HashOK H) {e : Eds} (hsz : ∀ sh ∈ e.shares, NS_SIZE ≤ sh.data.length)
-    {dah : Dah} (hd : Dah.ofEds H e = .ok dah) (r : Row) (hr : ∀ sh ∈ r.shares, NS_SIZE ≤ sh.data.length) (i : Nat) :
+/-- **Row soundness against the DAH of a square**: accepted ⇒ the shares are exactly row `i` of the square.  The hash
+    assumption: no collision among `hashedC05 H e r` (a finite, explicitly computed list) — satisfiable, see the
+    non-vacuity instance below. -/
+theorem row_sound_eds {H : HashFn} {e : Eds} (hsz : ∀ sh ∈ e.shares, NS_SIZE ≤ sh.data.length)
+    {dah : Dah} (hd : Dah.ofEds H e = .ok dah) (r : Row) (hr : ∀ sh ∈ r.shares, NS_SIZE ≤ sh.data.length) (i : Nat)
+    (hk : HashOKOn H (fun y => y ∈ hashedC05 H e r)) :
     specVerify ((e.row? i).map (fun l => l.map Share.data)) (r.shares.map Share.data)
       (accepted (verify H r i dah)) = true := by
   obtain ⟨hrl, _, hrows, _⟩ := dah_ofEds_roots hd
@@ -70,7 +94,10 @@ theorem row_sound_eds {H : HashFn} (hk : HashOK H) {e : Eds} (hsz : ∀ sh ∈ e
       exact List.mem_of_getElem? hy1
     have : e.row? i = some shares := hax
     rw [this]
-    exact row_sound_root hk (fun sh hs => hsz sh (hmem sh hs)) hcr hget r hr
+    have hAx : axisInputs H e .row i = rowInputs H shares := by unfold axisInputs rowInputs; rw [hax]
+    exact row_sound_root hk (List.mem_append_left _ (nil_mem_edsInputs H e)) (fun sh hs => hsz sh (hmem sh hs))
+      (fun y hy => List.mem_append_left _ (axisInputs_mem_eds hi (by rw [hAx]; exact hy))) hcr hget r hr
+      (fun y hy => List.mem_append_right _ hy)
   · have : dah.rowRoot? i = none := by
       unfold Dah.rowRoot?; rw [List.getElem?_eq_none_iff]; omega
     have hv : accepted (verify H r i dah) = false := by
@@ -80,12 +107,48 @@ theorem row_sound_eds {H : HashFn} (hk : HashOK H) {e : Eds} (hsz : ∀ sh ∈ e
       | some hs => simp [this, accepted]
     simp [hv, specVerify]
 
-/-- **Round trip from the left half**: if the codec extends the left half of the row to the row (the row is a
-    codeword: the property of `leopard_codec::encode` that is assumed, not proved), decoding `RawRow::from(row)` gives
-    the row back -/
-theorem row_roundtrip_left {r : Row} {i k : Nat} (hr : HonestRow r i k) (codec : List Bytes → CodecRes)
-    (hc : codec (codecInput (toRaw r)) = .ok (r.shares.map Share.data)) :
-    fromRaw codec i (toRaw r) = .ok r := by
+/-- **Soundness as a reduction** (no assumption on the hash beyond its output length): a row that is accepted although
+    it is not row `i` of the square yields an explicit collision `x ≠ y`, `H x = H y` with both `x` and `y` among the
+    byte strings hashed for the square's trees and the verifier's row tree. -/
+theorem row_forgery_yields_collision {H : HashFn} (hl : HashLen H) {e : Eds}
+    (hsz : ∀ sh ∈ e.shares, NS_SIZE ≤ sh.data.length) {dah : Dah} (hd : Dah.ofEds H e = .ok dah) (r : Row)
+    (hr : ∀ sh ∈ r.shares, NS_SIZE ≤ sh.data.length) (i : Nat)
+    (hbad : specVerify ((e.row? i).map (fun l => l.map Share.data)) (r.shares.map Share.data)
+      (accepted (verify H r i dah)) = false) :
+    CollisionIn H (fun y => y ∈ hashedC05 H e r) := by
+  rcases noCollOn_or_collision H (fun y => y ∈ hashedC05 H e r) with h | h
+  · have := row_sound_eds hsz hd r hr i ⟨h, hl⟩
+    rw [this] at hbad; cases hbad
+  · exact h
+
+/-- the shard vector `Row::from_raw` builds from the left half has `2k` entries whose first `k` are the half -/
+theorem codecInput_toRaw {r : Row} {i k : Nat} (hr : HonestRow r i k) :
+    codecInput (toRaw r) = (r.shares.map Share.data).take k ++ List.replicate k (List.replicate SHARE_SIZE 0) := by
+  have h2 : r.shares.length / 2 = k := by rw [hr.len]; omega
+  have hl : ((r.shares.map Share.data).take k).length = k := by simp [List.length_take, hr.len]; omega
+  simp only [codecInput, toRaw, h2]
+  rw [if_neg (by decide), hl]
+
+theorem codecInput_toRawRight {r : Row} {i k : Nat} (hr : HonestRow r i k) :
+    codecInput (toRawRight r) = List.replicate k [] ++ (r.shares.map Share.data).drop k := by
+  have h2 : r.shares.length / 2 = k := by rw [hr.len]; omega
+  have hl : ((r.shares.map Share.data).drop k).length = k := by simp [List.length_drop, hr.len]; omega
+  simp only [codecInput, toRawRight, h2]
+  rw [if_pos trivial, hl]
+
+/-- **Round trip from the left half.**  Codec assumption: `leopard_codec::encode` is a systematic encoder (`encodeCodec
+    enc`: keeps the data half, writes `enc` of it into the parity half); row assumption: the row is a codeword of that
+    encoder (true of every row of an extended square — C07/C08).  Then decoding `RawRow::from(row)` gives the row. -/
+theorem row_roundtrip_left {r : Row} {i k : Nat} (hr : HonestRow r i k) (enc : List Bytes → List Bytes)
+    (hcw : RowCodeword enc k (r.shares.map Share.data)) :
+    fromRaw (encodeCodec enc) i (toRaw r) = .ok r := by
+  have hc : encodeCodec enc (codecInput (toRaw r)) = .ok (r.shares.map Share.data) := by
+    rw [codecInput_toRaw hr]
+    have hl : ((r.shares.map Share.data).take k).length = k := by simp [List.length_take, hr.len]; omega
+    have hlen : ((r.shares.map Share.data).take k ++ List.replicate k (List.replicate SHARE_SIZE 0)).length / 2 = k := by
+      rw [List.length_append, hl, List.length_replicate]; omega
+    unfold encodeCodec
+    rw [hlen, List.take_left' hl, ← hcw.2, List.take_append_drop]
   unfold fromRaw
   have hl : (toRaw r).sharesHalf.length = k := by
     simp [toRaw, List.length_take, hr.len]; omega
@@ -93,37 +156,22 @@ theorem row_roundtrip_left {r : Row} {i k : Nat} (hr : HonestRow r i k) (codec :
   simp only [hc, hl, hk0, ↓reduceIte]
   rw [buildShares_ok i k r.shares 0 (fun j sh hj => by simpa using hr.ok j sh hj)]
 
-/-- **Round trip from the right half**: if the codec reconstructs the row from its right half (the MDS property of
-    `leopard_codec::reconstruct`, assumed), decoding the right-half message gives the row back -/
-theorem row_roundtrip_right {r : Row} {i k : Nat} (hr : HonestRow r i k) (codec : List Bytes → CodecRes)
-    (hc : codec (codecInput (toRawRight r)) = .ok (r.shares.map Share.data)) :
-    fromRaw codec i (toRawRight r) = .ok r := by
+/-- **Round trip from the right half.**  Codec assumption: `leopard_codec::reconstruct` recovers every codeword of the
+    encoder from its parity half (`RecoversFromRight enc rec k`, the MDS property for this erasure pattern); row
+    assumption: the row is a codeword.  Then decoding the right-half message gives the row. -/
+theorem row_roundtrip_right {r : Row} {i k : Nat} (hr : HonestRow r i k) (enc rec : List Bytes → List Bytes)
+    (hmds : RecoversFromRight enc rec k) (hcw : RowCodeword enc k (r.shares.map Share.data)) :
+    fromRaw (reconstructCodec rec) i (toRawRight r) = .ok r := by
+  have hc : reconstructCodec rec (codecInput (toRawRight r)) = .ok (r.shares.map Share.data) := by
+    rw [codecInput_toRawRight hr]
+    unfold reconstructCodec
+    rw [hmds _ hcw]
   unfold fromRaw
   have hl : (toRawRight r).sharesHalf.length = k := by
     simp [toRawRight, List.length_drop, hr.len]; omega
   have hk0 : ¬ (k = 0) := by have := hr.kpos; omega
   simp only [hc, hl, hk0, ↓reduceIte]
   rw [buildShares_ok i k r.shares 0 (fun j sh hj => by simpa using hr.ok j sh hj)]
-
-/-- soundness in reduction form (satisfiable by real hashes) -/
-theorem row_sound_or_collision {H : HashFn} (hl : HashLen H) {e : Eds} (hsz : ∀ sh ∈ e.shares, NS_SIZE ≤ sh.data.length)
-    {dah : Dah} (hd : Dah.ofEds H e = .ok dah) (r : Row) (hr : ∀ sh ∈ r.shares, NS_SIZE ≤ sh.data.length) (i : Nat) :
-    specVerify ((e.row? i).map (fun l => l.map Share.data)) (r.shares.map Share.data)
-      (accepted (verify H r i dah)) = true ∨ ∃ x y, x ≠ y ∧ H x = H y := by
-  by_cases hinj : Function.Injective H
-  · exact Or.inl (row_sound_eds ⟨hinj, hl⟩ hsz hd r hr i)
-  · right
-    unfold Function.Injective at hinj
-    have : ∃ x y, H x = H y ∧ x ≠ y := by
-      apply Classical.byContradiction
-      intro hn
-      apply hinj
-      intro a b hab
-      apply Classical.byContradiction
-      intro hne
-      exact hn ⟨a, b, hab, hne⟩
-    obtain ⟨x, y, h1, h2⟩ := this
-    exact ⟨x, y, h2, h1⟩
 
 /-- the row the square itself hands out verifies against the square's DAH (no hash assumption) -/
 theorem row_honest_verifies {H : HashFn} {e : Eds} {dah : Dah} (hd : Dah.ofEds H e = .ok dah) {i : Nat}
@@ -173,9 +221,71 @@ theorem nonvacuity_okRow_honest : HonestRow okRow 0 1 where
       | ok n => exact ⟨n, rfl⟩
       | error er => simp [hf, isOkNs] at h1
 
-/-- the codec hypothesis of the round-trip theorems is satisfiable: a (toy) codec that returns the row -/
-example : fromRaw (fun _ => .ok (okRow.shares.map Share.data)) 0 (toRaw okRow) = .ok okRow :=
-  row_roundtrip_left nonvacuity_okRow_honest _ rfl
+/-- a toy systematic encoder: parity shard = data shard with 7 added to every byte -/
+def toyEnc : List Bytes → List Bytes := fun l => l.map (fun d => d.map (· + 7))
+/-- its reconstructor from the parity half -/
+def toyRec : List Bytes → List Bytes := fun l =>
+  let p := l.drop (l.length / 2)
+  p.map (fun d => d.map (· - 7)) ++ p
 
+/-- the toy reconstructor has the MDS property the right-half round trip assumes, for every `k` -/
+theorem nonvacuity_toyRec (k : Nat) : RecoversFromRight toyEnc toyRec k := by
+  intro cw ⟨hlen, hcw⟩
+  have hd : (cw.drop k).length = k := by simp [List.length_drop, hlen]; omega
+  have h2 : (List.replicate k ([] : Bytes) ++ cw.drop k).length / 2 = k := by
+    rw [List.length_append, List.length_replicate, hd]; omega
+  unfold toyRec
+  simp only [h2]
+  have hdr : (List.replicate k ([] : Bytes) ++ cw.drop k).drop k = cw.drop k :=
+    List.drop_left' (by simp)
+  rw [hdr]
+  have : (cw.drop k).map (fun d => d.map (· - 7)) = cw.take k := by
+    rw [hcw]; unfold toyEnc
+    rw [List.map_map]
+    have : ((fun d : Bytes => d.map (· - 7)) ∘ fun d => d.map (· + 7)) = id := by
+      funext d
+      simp only [Function.comp_apply, List.map_map, id]
+      have : ((fun x : UInt8 => x - 7) ∘ fun x => x + 7) = id := by
+        funext x; simp only [Function.comp_apply, id]; exact UInt8.add_sub_cancel x 7
+      rw [this, List.map_id]
+    rw [this, List.map_id]
+  rw [this, List.take_append_drop]
+
+set_option maxRecDepth 100000 in
+/-- the concrete row is a codeword of the toy encoder -/
+theorem nonvacuity_okRow_codeword : RowCodeword toyEnc 1 (okRow.shares.map Share.data) := ⟨rfl, by decide⟩
+
+/-- every hypothesis of the round-trip theorems holds on a concrete instance -/
+example : fromRaw (encodeCodec toyEnc) 0 (toRaw okRow) = .ok okRow :=
+  row_roundtrip_left nonvacuity_okRow_honest toyEnc nonvacuity_okRow_codeword
+example : fromRaw (reconstructCodec toyRec) 0 (toRawRight okRow) = .ok okRow :=
+  row_roundtrip_right nonvacuity_okRow_honest toyEnc toyRec (nonvacuity_toyRec 1) nonvacuity_okRow_codeword
+
+/-! ### Non-vacuity of `row_sound_eds`: ALL hypotheses hold on a concrete accepted row -/
+
+/-- 2×2 square of 512-byte shares -/
+def sumEds : Eds := Eds.ofRaw 2 [List.replicate 512 0, List.replicate 512 1, List.replicate 512 2, List.replicate 512 3]
+def sumDah : Dah := match Dah.ofEds toySum sumEds with | .ok d => d | .error _ => default
+/-- row 1 of the square, as `Row::new` hands it out -/
+def sumRow : Row := match Lumina.Model.Row.new sumEds 1 with | some r => r | none => default
+
+set_option maxRecDepth 100000 in
+/-- the toy hash has no collision among the byte strings hashed for this square and this row -/
+theorem nonvacuity_toySum_nocoll : NoCollOn toySum (fun y => y ∈ hashedC05 toySum sumEds sumRow) :=
+  noCollOn_of_list (by decide)
+
+set_option maxRecDepth 100000 in
+/-- `row_sound_eds` applied to a concrete ACCEPTED row: every hypothesis (incl. relative collision-freeness) holds -/
+example : accepted (verify toySum sumRow 1 sumDah) = true ∧
+    specVerify ((sumEds.row? 1).map (fun l => l.map Share.data)) (sumRow.shares.map Share.data)
+      (accepted (verify toySum sumRow 1 sumDah)) = true := by
+  refine ⟨by decide, ?_⟩
+  have hsz : ∀ sh ∈ sumEds.shares, NS_SIZE ≤ sh.data.length := by
+    have h : sumEds.shares.all (fun sh => decide (NS_SIZE ≤ sh.data.length)) = true := by decide
+    intro sh hm; simpa using List.all_eq_true.mp h sh hm
+  have hr : ∀ sh ∈ sumRow.shares, NS_SIZE ≤ sh.data.length := by
+    have h : sumRow.shares.all (fun sh => decide (NS_SIZE ≤ sh.data.length)) = true := by decide
+    intro sh hm; simpa using List.all_eq_true.mp h sh hm
+  exact row_sound_eds hsz (dah := sumDah) rfl sumRow hr 1 ⟨nonvacuity_toySum_nocoll, toySum_len⟩
 
 end Lumina.Props.C05
